@@ -43,7 +43,8 @@ func init() {
 type upSub struct {
 	dest   ro.Observer[int]
 	ctx    context.Context
-	closed bool
+	closed bool // over: ended by the source or torn down (not counted as live any more)
+	torn   bool // its teardown has run
 }
 
 // upSource is a hot source that counts its subscriptions. The k-th subscription first plays
@@ -51,7 +52,11 @@ type upSub struct {
 // until its teardown runs. A push goes to every subscription that is live. A subscription stops
 // being live when its teardown runs or when the source itself ends it (just before it emits the
 // terminal): from the source's side a subscription it has completed is over, whether or not the
-// subscriber has already run the teardown.
+// subscriber has already run the teardown. Whom a push reaches: in the sequential kinds every
+// subscription whose teardown has not run (exactly the model's `upLive`; between two top-level
+// events the two notions coincide, inside a nested event — a Subscribe that has not returned yet — the
+// probe may thus push to a subscription it has already ended, which the closed proxy drops); in the
+// concurrent kinds (`strict`) only the subscriptions that are not over.
 type upSource struct {
 	mu      sync.Mutex
 	total   int
@@ -60,6 +65,8 @@ type upSource struct {
 	subs    []*upSub
 	pre     [][]Tok
 	yield   int // concurrent variants: Gosched this many times inside Subscribe (widens races)
+	inside  func() // nested events: run once, inside the next Subscribe, after the prefix
+	strict  bool   // concurrent kinds: never push to a subscription that is over
 }
 
 func (p *upSource) Observable() ro.Observable[int] {
@@ -90,7 +97,16 @@ func (p *upSource) Observable() ro.Observable[int] {
 			}
 			emit(dest, ctx, t)
 		}
-		return func() { p.end(u) }
+		if f := p.inside; f != nil {
+			p.inside = nil
+			f()
+		}
+		return func() {
+			p.end(u)
+			p.mu.Lock()
+			u.torn = true
+			p.mu.Unlock()
+		}
 	})
 }
 
@@ -109,10 +125,10 @@ func (p *upSource) push(t Tok) {
 	p.mu.Unlock()
 	for _, u := range snap {
 		p.mu.Lock()
-		closed := u.closed
+		skip := u.torn || (p.strict && u.closed)
 		p.mu.Unlock()
-		if closed {
-			continue // a well-behaved source does not emit to a subscription that is over
+		if skip {
+			continue
 		}
 		if t.kind != 'N' {
 			p.end(u)
@@ -228,8 +244,9 @@ func buildShared(api, conn, flags string, src ro.Observable[int]) ro.Observable[
 }
 
 type shareEvent struct {
-	kind byte // S U N E C K D
-	arg  int
+	kind  byte // S U N E C K D
+	arg   int
+	inner []shareEvent // S[e1;e2;…]: events that happen inside the source's Subscribe
 }
 
 func parseShareEvents(s string) ([]shareEvent, bool) {
@@ -240,6 +257,19 @@ func parseShareEvents(s string) ([]shareEvent, bool) {
 	for _, t := range strings.Split(s, ",") {
 		if t == "" {
 			return nil, false
+		}
+		if strings.HasPrefix(t, "S[") && strings.HasSuffix(t, "]") {
+			body := t[2 : len(t)-1]
+			var inner []shareEvent
+			if body != "" {
+				in, ok := parseShareEvents(strings.ReplaceAll(body, ";", ","))
+				if !ok {
+					return nil, false
+				}
+				inner = in
+			}
+			out = append(out, shareEvent{kind: 'S', inner: inner, arg: 1})
+			continue
 		}
 		e := shareEvent{kind: t[0]}
 		switch t[0] {
@@ -322,24 +352,35 @@ func runShareCase(c *Case) string {
 	var recs []*subRec
 	var subs []ro.Subscription
 	var up, escaped []string
+	var do func(e shareEvent)
+	do = func(e shareEvent) {
+		switch e.kind {
+		case 'S':
+			r := &subRec{}
+			recs = append(recs, r)
+			subs = append(subs, nil)
+			i := len(subs) - 1
+			if e.arg == 1 { // nested: the inner events run inside the source's Subscribe, if it is subscribed
+				inner := e.inner
+				src.inside = func() {
+					for _, ie := range inner {
+						do(ie)
+					}
+				}
+			}
+			subs[i] = shared.SubscribeWithContext(context.Background(), bareObserver(r))
+			src.inside = nil
+		case 'U':
+			if e.arg < len(subs) && subs[e.arg] != nil {
+				subs[e.arg].Unsubscribe()
+			}
+		case 'N', 'E', 'C':
+			src.push(e.tok())
+		}
+	}
 	for _, e := range evs {
 		e := e
-		guarded(&escaped, func() {
-			switch e.kind {
-			case 'S':
-				r := &subRec{}
-				recs = append(recs, r)
-				subs = append(subs, nil)
-				i := len(subs) - 1
-				subs[i] = shared.SubscribeWithContext(context.Background(), bareObserver(r))
-			case 'U':
-				if e.arg < len(subs) && subs[e.arg] != nil {
-					subs[e.arg].Unsubscribe()
-				}
-			case 'N', 'E', 'C':
-				src.push(e.tok())
-			}
-		})
+		guarded(&escaped, func() { do(e) })
 		l, t := src.counters()
 		up = append(up, fmt.Sprintf("%d/%d", l, t))
 	}
@@ -492,6 +533,31 @@ func randomEvents(r *rand.Rand, alpha string, n, maxSubs int) string {
 	return strings.Join(ev, ",")
 }
 
+// innerSeqs: the sequences of exactly n events over {S, U0, U1, U2, N, E, C} (global subscriber ids:
+// an unsub of a subscriber that does not exist, or of the one whose Subscribe is running, is void)
+func innerSeqs(n int) []string {
+	syms := []string{"S", "U0", "U1", "U2", "N", "E", "C"}
+	out := []string{""}
+	for k := 0; k < n; k++ {
+		var next []string
+		for _, pre := range out {
+			for _, a := range syms {
+				t := a
+				if a == "N" || a == "E" {
+					t = a + strconv.Itoa(5+k)
+				}
+				if pre == "" {
+					next = append(next, t)
+				} else {
+					next = append(next, pre+";"+t)
+				}
+			}
+		}
+		out = next
+	}
+	return out
+}
+
 // shareCorpus: the stories of the documentation / existing tests and the minimised past findings
 var shareCorpus = [][4]string{
 	// api, conn, flags, pre, ev  (pre folded into the 4th field as pre|ev)
@@ -563,6 +629,50 @@ func genShare(tier string, seed int64, only string) []*Case {
 			}
 		}
 	}
+	// nested events: S[e1;e2;…] = a subscriber arrives and e1 e2 … happen inside the source's Subscribe
+	// (region R3 of that subscriber, if it creates the generation). One nested S per sequence.
+	outerLen, innerLen := 3, 2
+	if tier == "thorough" {
+		outerLen, innerLen = 4, 3
+	}
+	var inners []string
+	for n := 1; n <= innerLen; n++ {
+		inners = append(inners, innerSeqs(n)...)
+	}
+	for _, ev := range eventSeqs("SUNEC", outerLen, 2) {
+		toks := strings.Split(ev, ",")
+		for pos, t := range toks {
+			if t != "S" {
+				continue
+			}
+			for _, in := range inners {
+				nt := append(append([]string{}, toks[:pos]...), "S["+in+"]")
+				nt = append(nt, toks[pos+1:]...)
+				nev := strings.Join(nt, ",")
+				for _, conn := range []string{"publish", "replay1"} {
+					for _, fl := range shareFlagSets {
+						add("config", conn, fl, "-", nev)
+					}
+				}
+				if tier == "thorough" {
+					for _, fl := range shareFlagSets {
+						add("config", "behavior", fl, "N7", nev)
+					}
+				}
+			}
+			if tier != "thorough" {
+				// one step deeper for the configurations where stale teardowns matter most
+				for _, in := range innerSeqs(innerLen + 1) {
+					nt := append(append([]string{}, toks[:pos]...), "S["+in+"]")
+					nt = append(nt, toks[pos+1:]...)
+					for _, fl := range []string{"ECZ", "EZ", "Z"} {
+						add("config", "publish", fl, "-", strings.Join(nt, ","))
+					}
+				}
+			}
+		}
+	}
+	add("config", "publish", "ECZ", "-", "S[E1;S;U1],U0") // late release (known finding)
 	// the aliases
 	for _, ev := range eventSeqs("SUNEC", hotLen-1, 3) {
 		add("share", "publish", "ECZ", "-", ev)
@@ -688,7 +798,7 @@ func runShareConcCase(c *Case) string {
 	hold, _ := strconv.Atoi(c.get("hold", "1"))
 	pushes, _ := strconv.Atoi(c.get("pushes", "50"))
 	term := c.get("term", "-")
-	src := &upSource{}
+	src := &upSource{strict: true}
 	shared := buildShared("config", c.get("conn", "publish"), flags, src.Observable())
 	rec := &Recorder{}
 	setRecorder(rec)
@@ -883,7 +993,7 @@ func runConnConcCase(c *Case) string {
 	threads, _ := strconv.Atoi(c.get("threads", "2"))
 	rounds, _ := strconv.Atoi(c.get("rounds", "1"))
 	yield, _ := strconv.Atoi(c.get("yield", "1"))
-	src := &upSource{yield: yield}
+	src := &upSource{yield: yield, strict: true}
 	co := ro.ConnectableWithConfig(src.Observable(), ro.ConnectableConfig[int]{Connector: cf, ResetOnDisconnect: c.get("reset", "1") == "1"})
 	rec := &Recorder{}
 	setRecorder(rec)
